@@ -57,6 +57,11 @@ CHECKS = {
         technique="deterministic simulation: every single-step deviation (delete/duplicate/swap/substitute/inject) of every legal handshake trace by a man in the middle, plus a byzantine peer omitting mandatory messages through a guarded hook",
         text="16 handshake modes across TLS 1.1-1.3 and DTLS; fixed plans enumerate all single-step deviations at every plaintext handshake/CCS record position in both directions, seeded plans sample substitutions/injections; "
              "the byzantine peer is real MatrixSSL compiled with MATRIXSSL_VERIF skip points so both transcripts agree and only the receiver's state machine can refuse. Oracle: a receiver whose inbound sequence deviates never completes (protocol-mandated absorptions excepted); every legal trace completes (control)."),
+    "C08": dict(engine="proto", level="exploration", design="10/C08",
+        technique="deterministic simulation under ASan+UBSan: seeded on-path record edits (structure-blind and structure-aware), a byzantine peer editing plaintext before AEAD sealing, stream re-chunking; sanitizer, watchdog, return-code, allocation-bound and leak oracles",
+        text="Live transcripts of TLS 1.1/1.2/1.3 and DTLS 1.0/1.2 (suite, auth, resumption, ticket-key rotation, PMTU, re-chunking) parked at arbitrary record boundaries; 1-5 edits per run: bit flips, boundary values in 1/2/3-byte fields, handshake/fragment header fields, "
+             "record header fields, truncate/extend, consistent grow/shrink of a handshake message (all enclosing length fields adjusted), re-fragmentation, dup/drop/swap, forged/replayed/cross-session records, plaintext edits before sealing (post-decryption parsers). "
+             "Oracles: no ASan report or signal, no UBSan report, every API call returns within a 30 s watchdog with a documented status, no allocation above 1 MiB, I/O buffers within SSL_MAX_BUF_SIZE, zero live library blocks after sessions/keys are deleted. Sampled, not exhaustive: mutations of live transcripts, no coverage guidance."),
 }
 
 NOT_APPLICABLE = [
